@@ -4,20 +4,85 @@ import MlModel.Lemmas.TreeClosed
 -/
 namespace MlModel.Tree
 
-/-- The cells met when walking `p` from `r` in `h` — the only cells an in-place set may write. -/
+/-- the buffer of the array object in cell `r` (nothing for any other object) -/
+def ndBuf (h : Heap) (r : Ref) : List Ref :=
+  match h[r]? with
+  | some (.nd b _ _) => [b]
+  | _ => []
+
+/-- The cells met when walking `p` from `r` in `h` — the only cells an in-place set may write; when the
+walk arrives at an ndarray with keys still to go, its **buffer** is such a cell (the array object itself is
+never written: `arr[i] = x` changes elements, not the object). -/
 def pathCells (h : Heap) : Ref → Path → List Ref
   | _, [] => []
   | _, .self :: _ => []
   | _, .skip :: _ => []
-  | r, k :: ks => r :: (match index h r k with
+  | r, k :: ks => r :: (ndBuf h r ++ (match index h r k with
       | .ok c => pathCells h c ks
-      | .error _ => [])
+      | .error _ => []))
 
 theorem pathCells_cons {h : Heap} {r : Ref} {k : PKey} {ks : Path} (h1 : k ≠ .self) (h2 : k ≠ .skip) :
-    pathCells h r (k :: ks) = r :: (match index h r k with
+    pathCells h r (k :: ks) = r :: (ndBuf h r ++ (match index h r k with
       | .ok c => pathCells h c ks
-      | .error _ => []) := by
+      | .error _ => [])) := by
   cases k <;> simp_all [pathCells]
+
+theorem FrameExcept.of_fresh {S : Ref → Prop} {h h' : Heap} (f : FrameExcept (fun r => S r ∨ h.size ≤ r) h h') :
+    FrameExcept S h h' :=
+  ⟨f.1, fun r hr hn => f.2 r hr (fun hs => by rcases hs with hs | hs; exact hn hs; omega)⟩
+
+/-- `setNd_frame` with the hypothesis on the recursion only for the call that is made. -/
+theorem setNd_frame' {S : Ref → Prop} {R : Heap → Ref → Res Ref}
+    (inPlace : Bool) (h : Heap) (tree b off : Nat) (shape : List Nat) (k : PKey)
+    (hb : S (ndPre inPlace h tree b off shape).2.2.1)
+    (hR : ∀ o inner, FrameExcept S (ndItem (ndPre inPlace h tree b off shape).1
+        (ndPre inPlace h tree b off shape).2.2.1 o inner).1
+      (R (ndItem (ndPre inPlace h tree b off shape).1 (ndPre inPlace h tree b off shape).2.2.1 o inner).1
+        (ndItem (ndPre inPlace h tree b off shape).1 (ndPre inPlace h tree b off shape).2.2.1 o inner).2).1) :
+    FrameExcept S h (setNd R inPlace h tree b off shape k).1 := by
+  rw [setNd_unfold]
+  have hp := ndPre_frame S inPlace h tree b off shape
+  split
+  · exact hp
+  · split
+    · exact hp
+    · split
+      · exact hp
+      · split
+        · exact hp
+        · rename_i n inner _ i _ _ _ j _
+          have hi := (ndItem_extends (ndPre inPlace h tree b off (n :: inner)).1
+            (ndPre inPlace h tree b off (n :: inner)).2.2.1
+            ((ndPre inPlace h tree b off (n :: inner)).2.2.2 + j * prod inner) inner).frame S
+          have hr := hR ((ndPre inPlace h tree b off (n :: inner)).2.2.2 + j * prod inner) inner
+          split
+          · rename_i h3 e hRe
+            rw [hRe] at hr
+            exact hp.trans (hi.trans hr)
+          · rename_i h3 c hRe
+            rw [hRe] at hr
+            split
+            · exact hp.trans (hi.trans hr)
+            · exact hp.trans (hi.trans (hr.trans (ndWrite_frame _ _ _ hb)))
+
+/-- the cells an in-place set below a fresh item of an array (`arr[j]`: a scalar or a view) may write -/
+theorem pathCells_ndItem {h : Heap} {b : Ref} (o : Nat) (inner : List Nat) (rest : Path) :
+    ∀ r ∈ pathCells (ndItem h b o inner).1 (ndItem h b o inner).2 rest, r = h.size ∨ r = b := by
+  obtain ⟨nn, h1, h2, hnn⟩ := ndItem_fst h b o inner
+  rw [h1, h2]
+  have hcell : (h.push nn)[h.size]? = some nn := push_get_size h nn
+  intro r hr
+  cases rest with
+  | nil => simp [pathCells] at hr
+  | cons k ks =>
+    by_cases hk1 : k = .self
+    · subst hk1; simp [pathCells] at hr
+    by_cases hk2 : k = .skip
+    · subst hk2; simp [pathCells] at hr
+    rw [pathCells_cons hk1 hk2, index_of_get hcell] at hr
+    rcases hnn with ⟨rfl, _⟩ | ⟨rfl, _⟩
+    · simp [ndBuf, hcell, Node.slotGet] at hr; exact Or.inl hr
+    · simp [ndBuf, hcell, Node.slotGet] at hr; exact hr
 
 theorem setSeq_frame' {S : Ref → Prop} {R : Heap → Ref → Res Ref} (h1 : Heap) {res : Ref} (rs : List Ref)
     (k : PKey) (hres : S res)
@@ -161,5 +226,20 @@ theorem setPath_inplace_frame (strict : Bool) (p : Path) : ∀ (h : Heap) (t v :
       split
       · rename_i h2 he; rw [he] at hf; exact hf
       · rename_i h2 e he; rw [he] at hf; exact hf
+
+    · -- ndarray, in place: the caller's buffer is written (through views of it), nothing else
+      rename_i b off shape hn
+      have hbS : b ∈ pathCells h t (k :: rest) := by
+        rw [pathCells_cons hk1 hk2]; simp [ndBuf, hn]
+      apply FrameExcept.of_fresh
+      apply setNd_frame' true h t b off shape k (Or.inl (by simpa [ndPre] using hbS))
+      intro o inner
+      simp only [ndPre, if_true]
+      refine (ih _ _ v).mono ?_
+      intro r hr
+      rcases pathCells_ndItem o inner rest r hr with e | e
+      · exact Or.inr (by omega)
+      · exact Or.inl (e ▸ hbS)
+    · exact FrameExcept.refl _ _
 
 end MlModel.Tree
